@@ -310,3 +310,72 @@ def check_c20(tier):
          "the channel handler is a raw byte echo, so 'bytes flow unmodified' is checked below the WebSocket framing layer"],
         time.time() - t0, len(findings.violations))
     return rc
+
+
+def check_c18(tier):
+    import os
+    import subprocess
+    t0 = time.time()
+    vlib.build_harness()
+    findings = vlib.Findings("C18")
+    res = vlib.run_tlc("C18-hostile", "Hostile.tla", "MC_Hostile.cfg", workers=2, timeout=600, coverage=True)
+    vlib.tlc_ok(res, "hostile")
+    if res.violated:
+        findings.add({"engine": "hostile-model", "kind": "invariant:" + str(res.violated), "shape": "other"},
+                     {"tlc_trace": res.trace[-3000:]})
+    outdir = os.path.join(vlib.WORK, "hostile")
+    os.makedirs(outdir, exist_ok=True)
+    path = os.path.join(outdir, "trace.ndjson")
+    p = subprocess.run([vlib.harness_bin("drive_hostile"), tier, path],
+                       env=dict(os.environ, VERIF_SEED=str(vlib.seed())),
+                       stdout=subprocess.PIPE, stderr=subprocess.PIPE, text=True, timeout=3000)
+    if p.returncode != 0:
+        raise vlib.ToolError("drive_hostile failed (the driver itself, not the server): %s" % p.stderr[-2000:])
+    with open(path) as f:
+        lines = [x for x in f.read().split("\n") if x.strip()]
+    nfaults = sum(1 for x in lines if '"ev":"fault"' in x)
+    nhealth = sum(1 for x in lines if '"ev":"health"' in x)
+    kinds = {}
+    for x in lines:
+        if '"ev":"fault"' in x:
+            k = json.loads(x)["kind"]
+            kinds[k] = kinds.get(k, 0) + 1
+    validated_events = 0
+    states = 0
+    for it in range(10):
+        cur = path + ".v%d" % it
+        with open(cur, "w") as f:
+            f.write("\n".join(lines) + "\n")
+        tr = vlib.run_trace("C18-trace-%d" % it, "TraceHostile.tla", "TraceHostile.cfg", cur)
+        os.unlink(cur)
+        states += tr.states
+        if tr.accepted:
+            validated_events = len(lines)
+            break
+        ev = json.loads(lines[tr.reject_line - 1])
+        ctx = [json.loads(x) for x in lines[max(0, tr.reject_line - 8): tr.reject_line + 1]
+               if '"ev":"fault' in x or '"ev":"health"' in x]
+        findings.add({"engine": "hostile-trace", "kind": "unexplained:" + str(ev.get("ev")),
+                      "shape": next((c.get("kind") for c in reversed(ctx) if c.get("ev") == "fault"), "?")},
+                     {"rejected_event": ev, "preceding_faults": ctx,
+                      "note": "no action of Hostile.tla explains this: the server stopped answering, answered with "
+                              "malformed HTTP, or accepted a malformed request"})
+        # drop the offending line and continue
+        lines = lines[:tr.reject_line - 1] + lines[tr.reject_line:]
+    rc = findings.report()
+    vlib.write_evidence(
+        "C18", tier, "fault_enumeration",
+        {"evaluations": nfaults, "distinct_nontrivial": nfaults,
+         "rule": "each fault is one faulty connection followed by a health request on a fresh connection; faults: a valid "
+                 "request truncated at every byte offset (FIN, and RST), random bytes, byte-level mutations of a valid "
+                 "request, oversized heads, illegal header values, broken chunking, short bodies, panicking handlers with "
+                 "half-open connections lingering; distinct = distinct (kind, parameters) faults injected",
+         "samples": [json.loads(x) for x in lines if '"ev":"fault"' in x][:3],
+         "faults_by_kind": kinds, "health_checks": nhealth, "trace_events_validated": validated_events,
+         "tlc_states": res.distinct + states},
+        ["syntactic validity of response bytes is decided by the harness's HTTP/1.1 response parser",
+         "Hostile.tla is a monitor specification: the fault alphabet and the rules for what may be answered; "
+         "it does not model hyper's parser",
+         "a server that does not answer a broken request at all (closes, or waits for more input) is acceptable"],
+        time.time() - t0, len(findings.violations))
+    return rc
